@@ -236,7 +236,8 @@ def run_jobs(ctx, vh, driver, jobs, extra_env=None):
         obs = os.path.join(ctx.run_dir, "j%d.s%d.obs" % (ji, s))
         res = os.path.join(ctx.run_dir, "j%d.s%d.res" % (ji, s))
         env = {"VERIF_SEED": str(shard_seed(ctx.seed, s) if job.get("shards", 1) > 1 else ctx.seed),
-               "VERIF_TIER": ctx.tier, "VERIF_ROOT": ctx.root}
+               "VERIF_TIER": ctx.tier, "VERIF_ROOT": ctx.root,
+               "VERIF_SHARD": str(s), "VERIF_SHARDS": str(job.get("shards", 1))}
         if extra_env:
             env.update(extra_env)
         binp = job.get("bin", vh)
